@@ -40,6 +40,24 @@ META = {
     'C11': dict(cat='exploration', technique='property-based testing: value-driven parallel walk of the depth-limited and unlimited ASTs (bounded-exhaustive shapes x every depth + Hypothesis)',
                 text='All container shapes <= 4/5 nodes with unique leaves x every depth 0..height+2 and None, plus random shapes: placeholders of the element\'s own type appear exactly at nesting level >= depth, everything above is unchanged, depth > height is identical to None.',
                 note='Two tolerances where the statement is silent (str dict keys exactly at the cut; empty list/tuple/set beyond the cut).', ref='3/C11'),
+    'C13': dict(cat='exploration', technique='property-based testing against a reference DFS over generated object graphs (bounded-exhaustive small graphs + Hypothesis), with reprint histories',
+                text='All graphs of list/dict/tuple-holding-list nodes with <= 2 nodes (leaf targets) and all 3-node graphs with out-degree <= 2, random graphs up to 8 nodes; each printed in a five-step history: recursion markers exactly at back-edges (type name and id), shared nodes printed in full, reprints identical, no residue.',
+                note='id() of live objects is the identity; RecursionError on these small graphs counts as non-termination.', ref='3/C13'),
+    'C14': dict(cat='fault_enumeration', technique='fault enumeration: every printer invocation of every small instrumented tree fails in turn (7 exception classes x before/after children); oracle = output with the faulted object replaced by a repr leaf',
+                text='Every ordered tree shape with <= 5 (quick) / 6 (thorough) instrumented nodes x edge-wrapper and class patterns: each node in turn raises each exception class before/after printing its children; sampled fault pairs, random trees and bad return values. Output equals the healthy output with exactly the faulted value replaced by its repr; one warning per failing invocation naming the printer; later prints unaffected; bad return type raises ValueError.',
+                note='Harness printers are user-level printers built on build_fncall/pretty_python_value; a fault is attached to an object (each node printer runs once per print in these trees).', ref='3/C14'),
+    'C15': dict(cat='exploration', technique='model-based testing of operation histories (bounded-exhaustive histories <= 3/4 ops + Hypothesis op lists) against an executable dispatch model',
+                text='Histories of register-by-class / by-name / predicate, print and is_registered (all flag combinations) on a fresh class lattice per history (chain, diamond, unrelated): the printer used and every is_registered answer agree with the model (nearest class in MRO, latest registration wins, then first predicate, then repr).',
+                note='is_registered(check_deferred=False) may answer either way for a by-name entry that may already have been promoted (pinned test behaviour).', ref='3/C15'),
+    'C16': dict(cat='exploration', technique='differential/invariant testing with an independent SGR decoder over every pygments style x colour mode (fixed corpus exhaustively + Hypothesis values and annotated documents)',
+                text='A fixed corpus x every installed pygments style + the two bundled ones x {true colour, 256, 8}, every Token member alone, and random values / annotated document terms: stripped text equals the plain rendering, no style crashes, each character carries the style of its innermost token annotation, the stream ends reset.',
+                note='colorful (private instance and palette) is the trusted encoder of a style attribute set; the token table is derived from the Token names.', ref='3/C16'),
+    'C17': dict(cat='exploration', technique='property-based testing: AST call shape vs. the generated call recipe, recording callable, and an independent field-selection model over generated dataclass/attrs definitions',
+                text='pretty_call/pretty_call_alt with generated callables, positional and keyword lists (all kwargs container kinds, clashing names): callee name, argument order, each argument identical to its stand-alone print, evaluation performs that call. Generated dataclass/attrs classes (defaults, factories, takes_self, repr flags, frozen/slots): exactly the fields selected by the model, evaluation reconstructs an equal instance.',
+                note='"differs from the default" is Python != as in the statement; classes live in ppv.dyn.', ref='3/C17'),
+    'C18': dict(cat='exploration', technique='model-based testing of configuration histories: every entry point compared with pformat given all effective settings explicitly',
+                text='Histories of set_default_config / get_default_config / print through 8 entry points with each setting explicit or defaulted: all agree with the reference text (+ end), and the defaults equal the model after every step. Single-setting changes are enumerated exhaustively for every entry point.',
+                note='pformat with every setting explicit is the reference; defaults restored through the API.', ref='3/C18'),
 }
 
 ALL_IDS = ['C%02d' % i for i in range(1, 21)]
